@@ -194,6 +194,11 @@ def check_exclusion(mode_name, seq, fs, res):
                     ('negateall', mod.compile('!' + text, flags=fl | mod.NEGATE | mod.NEGATEALL), every)]
         if '|' not in text:
             variants.append(('split-first', mod.compile('!zz|' + text, flags=fl | mod.NEGATE | mod.SPLIT), alone))
+        # translate() supplies the same implicit inclusion
+        import re as _re
+        from wcmatch import _wcmatch as _wm
+        tinc = mod.translate('!' + text, flags=fl | mod.NEGATE | mod.NEGATEALL)[0]
+        variants.append(('negateall-translate', _wm.WcRegexp(tuple(_re.compile(x) for x in tinc)), every))
     except Exception:  # noqa: BLE001
         variants = []
     for how, mm, ref in variants:
@@ -432,6 +437,12 @@ def replay(v):
         fl = gflags(inp['flags']) if inp['mode'] == 'glob' else fflags(inp['flags'])
         match = mod.globmatch if inp['mode'] == 'glob' else mod.fnmatch
         n, how = inp['name'], inp['how']
+        if how == 'negateall-translate':
+            import re as _re
+            tinc = mod.translate('!' + p, flags=fl | mod.NEGATE | mod.NEGATEALL)[0]
+            got = any(_re.compile(x).fullmatch(n) for x in tinc)
+            want = match(n, '**' if inp['mode'] == 'glob' else '*', flags=fl | (G.GLOBSTAR if inp['mode'] == 'glob' else 0))
+            return {'violates': bool(got) != bool(want), 'observed': {'implicit_inclusion_of_translate': got, 'alone': want}}
         if how == 'negateall':
             got = match(n, '!' + p, flags=fl | mod.NEGATE | mod.NEGATEALL) or match(n, p, flags=fl | mod.DOTMATCH)
             want = match(n, '**' if inp['mode'] == 'glob' else '*', flags=fl | (G.GLOBSTAR if inp['mode'] == 'glob' else 0))
